@@ -371,7 +371,7 @@ def run_lean(interp, c):
     stamp = json.load(open(f + ".checked"))
     ok = hashlib.sha256(src).hexdigest() == stamp.get("sha256")
     c.oblige("lemma", "lemmas/Metanet.lean is the file whose Lean check is recorded in Metanet.lean.checked", T.const(ok), assume_after=False)
-    names = ("fd_max", "network_balance", "sum_enum", "sum_perm", "exp_pos'", "exp_le_one_of_nonpos", "log_nonpos'", "rpow_nonneg'", "zero_rpow'", "one_rpow'")
+    names = ("fd_max", "network_balance", "sum_enum", "sum_perm", "flatMap_length_congr", "term_le_sum_range", "exists_pos_of_sum_range_pos", "exp_pos'", "exp_le_one_of_nonpos", "log_nonpos'", "rpow_nonneg'", "zero_rpow'", "one_rpow'")
     text = src.decode()
     for nme in names:
         c.oblige("lemma", f"Lean theorem Metanet.{nme} is stated in the checked file (no sorry in the file)", T.const(__import__("re").search(r"theorem " + __import__("re").escape(nme) + r"\s", text) is not None and "sorry" not in text), assume_after=False)
@@ -389,7 +389,7 @@ def all_tasks():
     return [
         Task("lemma:sum-signs", run_sum_signs, props=("C07",), func="pyvc.vc.sum_sign_lemmas"),
         Task("lemma:sum-membership", run_sum_membership, props=("C06",), func="contracts.valid_agg_tasks.sum_member/sum_witness"),
-        Task("lean:lemmas/Metanet.lean", run_lean, props=("C02", "C14", "C17", "C18"), func="lemmas/Metanet.lean"),
+        Task("lean:lemmas/Metanet.lean", run_lean, props=("C02", "C04", "C06", "C14", "C17", "C18"), func="lemmas/Metanet.lean"),
         Task("lemma:origin-flow-bounds(ramps)", run_c17_ramps, props=("C17",), func="EngineSpec.origins.get_ramp_flow/get_simplifiedramp_flow"),
         Task("lemma:origin-flow-bounds(mainstream)", run_c17_mainstream, props=("C17",), func="EngineSpec.origins.get_mainstream_flow"),
         Task("lemma:mainstream-flow-vs-Hegyi", run_c01_mainstream_hegyi, props=("C01",), func="EngineSpec.origins.get_mainstream_flow"),
